@@ -9,18 +9,18 @@ CLAIMED = {
     "C01": dict(
         text="Lean theorems about a hand-written model of internal/csm + CronTrigger.NextFireTime (generic odometer theory `findForward_spec`: least all-valid configuration above the start; node contracts; calendar order = Unix order), for all fields x prev x fixed offsets; the model is tied to the code by facts regenerated from the source on every run (node limits, parser bounds, glossaries) and by exact differential execution against the real code with an independent brute-force oracle as third voice.",
         note="trusts: Lean kernel; fact extractor; Go harness/diff driver; Go time package = proleptic Gregorian calendar (validated against the Lean calendar); Lean code generator for running the model. The end-to-end statement C01_sound is assembled from the listed lemmas (see evidence: obligations).",
-        technique="Lean 4 refinement proof (odometer least-element theorem) + regenerated facts + differential correspondence",
-        ref="DESIGN.md §6 C01"),
+        technique="Lean 4 refinement proof (odometer least-element theorem) about definitions TRANSLATED from internal/csm + quartz/csm.go on every run (gotolean; translated = hand model for all inputs, C01_sound_trans) + regenerated facts + differential correspondence",
+        ref="DESIGN.md §0.8, §6 C01"),
     "C02": dict(
         text="Same development as C01: the model returns the least matching instant after prev (no skip) and `expired` exactly when the odometer is exhausted, which the theory shows happens iff no all-valid configuration above the start exists (year <= 2261). Differential run judges skipped instants and spurious/missing expiry with the independent oracle.",
         note="as C01",
-        technique="Lean 4 refinement proof (least element + exhaustion iff none) + regenerated facts + differential correspondence",
-        ref="DESIGN.md §6 C01/C02"),
+        technique="Lean 4 refinement proof (least element + exhaustion iff none) about definitions TRANSLATED from the source on every run (C02_minimal_trans) + regenerated facts + differential correspondence",
+        ref="DESIGN.md §0.8, §6 C01/C02"),
     "C06": dict(
         text="Totality is a theorem of the model (structural recursion; `loop_fuel`: with digit bounds and the mixed-radix measure the search loop never runs out of fuel) and the real code is run in supervised worker processes (deadline, crash detection) on never-firing and boundary expressions; purity checked by repeated evaluation on one trigger and a -race hammer in the thorough tier.",
         note="absence of hidden mutable state in the Go trigger is observed (repeat calls, Description unchanged, race detector), not proved",
-        technique="Lean 4 termination/fuel-sufficiency proof + supervised differential execution",
-        ref="DESIGN.md §6 C06"),
+        technique="Lean 4 termination/fuel-sufficiency proof about definitions TRANSLATED from the source on every run (C06_total_trans) + supervised differential execution",
+        ref="DESIGN.md §0.8, §6 C06"),
     "C07": dict(
         text="Lean theorems about a character-level model of the parser (everything accepted is well-formed and in range; rejection classes; macros = expansions; whitespace insignificant; missing year = every year); tie: regenerated bounds/glossaries/macro table + accept/reject differential on grammar, invalid-by-construction, single-edit mutant and raw-byte streams, meaning compared through NextFireTime.",
         note="Go regexp/strconv/strings/unicode behaviour is re-implemented in the model and compared, not verified",
@@ -30,8 +30,8 @@ CLAIMED = {
 
 CLAIMED["C11"] = dict(
     text="Lean theorems about a transcription of container/heap (up/down/Push/Pop/Remove on an array) and of quartz/queue.go: heap order and key uniqueness are invariants of every operation sequence (C11_inv_reachable), Pop/Head return a minimum, Get/Remove address the entry with that key, duplicate pushes are rejected unless Replace and then replace exactly that entry, ScheduledJobs returns exactly the entries satisfying all matchers, string operators mean prefix/suffix/infix/equality. Tie: exact differential execution incl. heap array order against quartz.NewJobQueue() (random and exhaustive-small op sequences) plus an abstract key->entry map oracle in the harness.",
-    note="container/heap is modelled (transcribed) and compared, not verified; thread-safety of the queue's own mutex is outside the model",
-    technique="Lean 4 invariant + refinement proofs over all op sequences + exact differential correspondence + concurrent-history linearizability search",
+    note="container/heap is modelled (transcribed) and compared, not verified; thread safety: every exported method runs under the queue's mutex from its first statement (regenerated fact), hence C11_linearizable / C11_concurrent_inv for every interleaving; sync.Mutex = mutual exclusion is trusted",
+    technique="Lean 4 invariant + refinement proofs over all op sequences + linearizability theorem from regenerated lock facts + exact differential correspondence + concurrent-history linearizability search",
     ref="DESIGN.md §6 C11")
 
 CLAIMED["C14"] = dict(
